@@ -120,6 +120,23 @@ def parse_literal(tok):
     if k > 1:
         raise ValueError("more than one negation bar in literal {!r}".format(tok))
     if k == 1:
+        # the bar must be over something: read its brace-delimited argument
+        m = _NEG_WRAP.search(t)
+        rest = t[m.end():].lstrip()
+        if rest.startswith('{'):
+            depth, j = 0, 0
+            for j, ch in enumerate(rest):
+                if ch == '{':
+                    depth += 1
+                elif ch == '}':
+                    depth -= 1
+                    if depth == 0:
+                        break
+            covered = rest[1:j]
+        else:
+            covered = rest[:1]
+        if norm_name(covered) == '':
+            raise ValueError("the negation bar of literal {!r} covers nothing".format(tok))
         if neg:
             raise ValueError("literal {!r} is negated twice".format(tok))
         neg = True
